@@ -505,6 +505,8 @@ class BaseCurve(Intface_BaseCurve):
             return
         if self.knotvector.limits != newknotvector.limits:
             raise ValueError
+        if self.weights is not None:
+            return self.__update_rational(newknotvector, tolerance, nodes)
         temp_curve = self.__class__(newknotvector)
         error = temp_curve.fit_curve(self, nodes)
         if tolerance is not None and error > tolerance:
@@ -514,6 +516,30 @@ class BaseCurve(Intface_BaseCurve):
         self.__knotvector = newknotvector
         self.ctrlpoints = temp_curve.ctrlpoints
         self.weights = temp_curve.weights
+
+    def __update_rational(self, newknotvector, tolerance, nodes):
+        """Projects the weighted control points and the weights of a
+        rational curve on the spline space of newknotvector"""
+        oldvector, newvector = tuple(self.knotvector), tuple(newknotvector)
+        lstsq = heavy.LeastSquare.spline2spline
+        transmat, materror = lstsq(oldvector, newvector, nodes)
+        weights = self.weights
+        points = [wi * pt for wi, pt in zip(weights, self.ctrlpoints)]
+        error = np.dot(np.moveaxis(points, 0, -1), np.dot(materror, points))
+        error = np.max(np.abs(error))
+        error = max(error, np.dot(weights, np.dot(materror, weights)))
+        if tolerance is not None and error > tolerance:
+            error_msg = "Cannot update knotvector cause error is "
+            error_msg += f" {float(error):.2e} > {tolerance}"
+            raise ValueError(error_msg)
+        newweights = tuple(np.dot(transmat, weights))
+        newpoints = np.dot(transmat, points)
+        roots = heavy.find_roots(newvector, newweights)
+        if roots:
+            raise ValueError(f"Zero division at nodes {roots}")
+        self.__knotvector = newknotvector
+        self.__weights = newweights
+        self.ctrlpoints = [pt / wi for pt, wi in zip(newpoints, newweights)]
 
     def apply(self, newknotvector: KnotVector, matrix: Tuple[Tuple[float]]):
         """Applies the linear transformation for every control point
